@@ -293,11 +293,13 @@ def run(tier, replay=None):
                              "deadline_scenarios": len([r for r in good if r["cfg"]["deadline_s"]])}
     # response delivery: how many parked responses really had their tail held by the worker when the stop came
     tails = [e for r in good for e in r.get("ctl", []) if e.get("e") == "SlotEnd" and "total" in e and e.get("setup")]
-    held = [e for e in tails if isinstance(e.get("held"), int) and e["held"] > 600]
+    for e in tails:      # measured when the slot was parked (and confirmed by what arrived after the release, when all arrived)
+        e["_held"] = e["held"] if isinstance(e.get("held"), int) else e["setup"].get("held_est")
+    held = [e for e in tails if isinstance(e.get("_held"), int) and e["_held"] > 600]
     resp_runs = [r for r in good if any(s.get("resp") for s in r["cfg"].get("slots", []))]
     rep.extra["protocol"].update({"response_scenarios": len(resp_runs), "tail_slots": len(tails), "tail_slots_held_by_worker": len(held),
-                                  "held_bytes_min_max": [min([e["held"] for e in held] or [0]), max([e["held"] for e in held] or [0])]})
-    if len(tails) >= 4 and len(held) * 2 < len(tails):
+                                  "held_bytes_min_max": [min([e["_held"] for e in held] or [0]), max([e["_held"] for e in held] or [0])]})
+    if len(tails) >= 4 and len(held) * 2 < len(tails) and not rep.violations:
         raise vlib.ToolError("only %d of %d parked responses had their tail in the worker when the stop came: the response leg is vacuous on this run"
                              % (len(held), len(tails)))
     for r in (good[:1] + resp_runs[:1]):
